@@ -47,6 +47,8 @@ func capture(ifname string, ms int, outPath string) {
 		fmt.Fprintln(os.Stderr, "capture: bind:", err)
 		os.Exit(3)
 	}
+	// room for bursts of a rate-limited scan of a big subnet (SO_RCVBUFFORCE: we are root)
+	syscall.SetsockoptInt(fd, syscall.SOL_SOCKET, 33 /* SO_RCVBUFFORCE */, 32<<20)
 	tv := syscall.Timeval{Sec: 0, Usec: 50000}
 	syscall.SetsockoptTimeval(fd, syscall.SOL_SOCKET, syscall.SO_RCVTIMEO, &tv)
 	fmt.Println("ready")
@@ -73,6 +75,7 @@ type e2eOut struct {
 	PeerIP     string    `json:"peer_ip"`
 	Exclude    []string  `json:"exclude"`
 	IntervalMS int       `json:"interval_ms"`
+	Rate       int       `json:"rate"`
 	RunMS      int       `json:"run_ms"`
 	Skipped    string    `json:"skipped,omitempty"`
 	Start      int64     `json:"start"`
@@ -95,13 +98,19 @@ func sh(args ...string) error {
 
 var e2eMu sync.Mutex
 
-// runE2E runs `sx arp --live` once. 10.<a>.<b>.0/29, source .1, peer .2.
-func runE2E(sxPath, self, workDir string, idx int, intervalMS, runMS int, exclude []string) e2eOut {
+// runE2E runs `sx arp --live` once. 10.<a>.<b>.0/<prefix>, source .1, peer .2. With a rate and a subnet
+// bigger than the buffers of the pipeline a pass lasts longer than the interval.
+func runE2E(sxPath, self, workDir string, idx int, intervalMS, runMS int, exclude []string, rate int, prefix int) e2eOut {
 	tag := fmt.Sprintf("%d%d", os.Getpid()%100000, idx)
 	n1, n2, v1, v2 := "vc19a"+tag, "vc19b"+tag, "vq1"+tag, "vq2"+tag
-	base := fmt.Sprintf("10.%d.%d.", 200+idx%50, os.Getpid()%250)
-	o := e2eOut{Kind: "e2e", Class: "e2e-arp-live", Subnet: base + "0/29", SrcIP: base + "1", PeerIP: base + "2",
-		Exclude: append([]string{}, exclude...), IntervalMS: intervalMS, RunMS: runMS, Stdout: []string{}, Seen: []arpSeen{}}
+	third := os.Getpid() % 250
+	if prefix < 24 {
+		third &^= (1 << uint(24-prefix)) - 1 // align the /23, /22 ...
+	}
+	base := fmt.Sprintf("10.%d.%d.", 200+idx%50, third)
+	plen := fmt.Sprint(prefix)
+	o := e2eOut{Kind: "e2e", Class: "e2e-arp-live", Subnet: base + "0/" + plen, SrcIP: base + "1", PeerIP: base + "2",
+		Exclude: append([]string{}, exclude...), IntervalMS: intervalMS, RunMS: runMS, Rate: rate, Stdout: []string{}, Seen: []arpSeen{}}
 	for i, x := range o.Exclude {
 		o.Exclude[i] = base + x
 	}
@@ -115,7 +124,7 @@ func runE2E(sxPath, self, workDir string, idx int, intervalMS, runMS int, exclud
 		{"ip", "netns", "add", n1}, {"ip", "netns", "add", n2},
 		{"ip", "link", "add", v1, "type", "veth", "peer", "name", v2},
 		{"ip", "link", "set", v1, "netns", n1}, {"ip", "link", "set", v2, "netns", n2},
-		{"ip", "-n", n1, "addr", "add", o.SrcIP + "/29", "dev", v1}, {"ip", "-n", n2, "addr", "add", o.PeerIP + "/29", "dev", v2},
+		{"ip", "-n", n1, "addr", "add", o.SrcIP + "/" + plen, "dev", v1}, {"ip", "-n", n2, "addr", "add", o.PeerIP + "/" + plen, "dev", v2},
 		{"ip", "-n", n1, "link", "set", v1, "up"}, {"ip", "-n", n2, "link", "set", v2, "up"},
 		{"ip", "-n", n1, "link", "set", "lo", "up"},
 	}
@@ -165,6 +174,9 @@ func runE2E(sxPath, self, workDir string, idx int, intervalMS, runMS int, exclud
 		exFile := fmt.Sprintf("%s/e2e-exclude-%d.txt", workDir, idx)
 		os.WriteFile(exFile, []byte(strings.Join(o.Exclude, "\n")+"\n"), 0o644)
 		args = append(args, "--exclude", exFile)
+	}
+	if rate > 0 {
+		args = append(args, "--rate", fmt.Sprintf("%d/s", rate))
 	}
 	args = append(args, o.Subnet)
 	cmd := exec.Command("ip", args...)
